@@ -10,6 +10,7 @@ relative margin > 2^-40 (`elem_safe`), so exact arithmetic (oracle, model) and n
 from __future__ import annotations
 
 import copy
+import enum
 import itertools
 import logging
 import math
@@ -21,7 +22,7 @@ import numpy as np
 from common import Ctx, Finding, Outcome
 
 PROPERTY = "C19"
-LEAN_TARGETS = ["QcelVerif.Props.C19", "QcelVerif.Lemmas.CompareSqrt", "QcelVerif.Driver.C19"]
+LEAN_TARGETS = ["QcelVerif.Props.C19", "QcelVerif.Lemmas.CompareSqrt", "QcelVerif.Model.CompareWide", "QcelVerif.Props.C19Wide", "QcelVerif.Driver.C19"]
 DRIVER = "QcelVerif/Driver/C19.lean"
 THEOREMS = [
     ("QcelVerif.Compare.closeR_fin_iff", "finite reals: the isclose model is true <-> |c-e| <= atol + rtol*|e| (or c = e)"),
@@ -43,20 +44,49 @@ THEOREMS = [
     ("QcelVerif.Compare.agree_iff_no_errAt", "Agree <-> no path mismatches (coherence of the two declarative descriptions)"),
     ("QcelVerif.Compare.compareRecursive_default_iff", "default forgive/equal_phase: True <-> atol < 1 and Agree"),
     ("QcelVerif.Compare.compareRecursive_atol_ge_one", "atol >= 1 raises ValueError (the documented refusal)"),
+    # ---- extension (Model/CompareWide.lean, Props/C19Wide.lean) ----
+    ("QcelVerif.Compare.compare_recursiveW_iff", "wide compare_recursive (expected list vs str/dict = one entry, vs ndarray = its rows; exact leaf vs ndarray; ragged computed; any key text) returns True <-> atol < 1 and every error entry of the recursion is phase-excused (listed and absent from the sign-tolerant recursion) or forgiven [restated after 91c6178: no ValueError clause]"),
+    ("QcelVerif.Compare.compare_recursiveW_raises_iff", "wide compare_recursive raises ValueError <-> atol >= 1 [restated after 91c6178: nothing else raises]"),
+    ("QcelVerif.Compare.compare_recursiveW_total", "the wide model never answers 'unmodelled' when its recursion met no unmodelled pair"),
+    ("QcelVerif.Compare.recErrsW_conservative", "on every pair the narrow recursion answers, the wide recursion yields the same entries (mutual induction)"),
+    ("QcelVerif.Compare.compareRecursiveW_conservative", "conservative extension: inside the scope of compare_recursive_iff the wide and the narrow compare_recursive models are equal"),
+    ("QcelVerif.Compare.protoCompare_eq", "ProtoModel.compare(other, **kw) = compare_recursive on the two .dict() trees with compare_recursive's defaults for absent keywords"),
+    ("QcelVerif.Compare.protoCompare_default_iff", "a.compare(b) without keywords is True <-> the recursion at atol = double(1e-6), rtol = double(1e-16) has no error entry [restated: no ValueError clause]"),
+    ("QcelVerif.Compare.mapKey_keys", "massage_dicts' in-place update keeps the key list"),
+    ("QcelVerif.Compare.mapKey_lookup_self", "the updated key holds f(old value) (absent stays absent)"),
+    ("QcelVerif.Compare.mapKey_lookup_other", "every other key keeps its value"),
+    ("QcelVerif.Compare.massage_keys", "compare_molrecs' normalisation returns a dict with the same keys in the same order"),
+    ("QcelVerif.Compare.massage_field", "the normalised record holds under every key exactly fieldNorm(key)(raw value): fragment_files as text, fragment_separators as None/int (truncation), provenance minus 'version', connectivity as (min,max,order) stably sorted by the whole tuple; every other field (geom, units, mass, charges ...) unchanged"),
+    ("QcelVerif.Compare.sortBonds_perm", "the connectivity sort returns a permutation of the bonds"),
+    ("QcelVerif.Compare.lexLe_trans", "the tuple order on (low, high, order) is transitive"),
+    ("QcelVerif.Compare.lexLe_total", "... and total"),
+    ("QcelVerif.Compare.sortBonds_sorted", "... in lexicographic (low atom, high atom, bond order) order - Python's tuple order; so the result does not depend on the listing order of distinct bonds [restated after ef204ac]"),
+    ("QcelVerif.Compare.compare_molrecs_iff", "compare_molrecs (relative_geoms != 'align') is True <-> both raw records normalise without exception and the normalised records pass wide compare_recursive with the same atol/rtol/forgive and no sign retry"),
+    ("QcelVerif.Compare.recErrsW_list_strdict", "a str or dict where a list is expected is exactly one error entry at that node [new, 8b4dd2e]"),
+    ("QcelVerif.Compare.recErrsW_list_seq", "an ndarray (ndim >= 1) where a list is expected is compared exactly as the list of its rows [restated: str/dict no longer zipped]"),
+    ("QcelVerif.Compare.recErrsW_list_nolen", "a non-text scalar or 0-d array where a list is expected gives the single entry 'Expected computed to have a __len__()'"),
+    ("QcelVerif.Compare.exactLeafW_arr", "exact leaf vs ndarray: no entry <-> the array has exactly one element equal to the leaf; otherwise exactly the mismatch entry (never an exception, never unmodelled) [restated after 91c6178]"),
+    ("QcelVerif.Compare.compareValuesW_ragged", "ragged computed under a numeric leaf: verdict False (np.array raises inside the helper's try)"),
+    ("QcelVerif.Compare.compare_molrecs_raises_iff", "compare_molrecs raises x <-> massage_dicts raises x on expected, or on computed after expected normalised, or x = ValueError from compare_recursive"),
 ]
 TRUSTED_BASE = [
     "Lean 4.33 kernel; axioms per theorem audited on every run (subset of propext, Classical.choice, Quot.sound)",
-    "hand-written model Model/Compare.lean of testing.py:41-505 (HEAD ca03624), tied by differential correspondence on the generated stream",
-    "numpy behaviour taken as parameter and folded into the model: np.array(dtype=float|complex) casting, shape inference, np.isclose, ==, unary minus; IEEE evaluation is only relied on where exact or decided by a 2^-40 relative margin",
-    "pydantic .dict() (models enter the model as dict trees built by the harness from .dict())",
-    "harness/c19.py generators, exactness filter and the Python oracle",
+    "hand-written model Model/Compare.lean of testing.py (written against ca03624; its scope - no list-vs-str/dict/ndarray, no exact-leaf-vs-array pairs - is untouched by the later repairs up to HEAD 5bfcfbf), tied by differential correspondence on the generated stream",
+    "hand-written extension Model/CompareWide.lean of /repo HEAD 5bfcfbf (incl. the repairs 91c6178, 8b4dd2e, ef204ac): wide recursion (testing.py:314-396 on list-vs-str/dict/ndarray, exact-leaf-vs-array, ragged computed), massage_dicts + compare_molrecs (testing.py:518-617) on the RAW records, ProtoModel.compare (basemodels.py:181-198) with the keyword defaults; tied by the W / M / P protocol lines (raw dictionaries and real model instances go through the line protocol); every R line is also run through the wide model inside the driver ('inconsistent' if the two models differ)",
+    "numpy behaviour taken as parameter and folded into the model: np.array(dtype=float|complex) casting, shape inference, np.isclose, ==, unary minus; truth value of an element-wise != (size 1: the element, otherwise ValueError, which the code catches and counts as a mismatch); iteration over an ndarray (rows / numpy scalars); np.array on ragged input raises; IEEE evaluation is only relied on where exact or decided by a 2^-40 relative margin",
+    "Python semantics folded into the model: min/max return the first argument on ties, list.sort is stable and tuples order lexicographically, int() truncates toward zero, dict.pop raises KeyError, tuple unpacking of a wrong-length tuple raises ValueError",
+    "pydantic .dict() (models enter the model as dict trees built by the harness from .dict(); str-Enum members as their values)",
+    "harness/c19.py generators, exactness filter and the Python oracles (dotted-name oracle for the old scope, segment-sequence oracle for the wide scope; both are run on every R line and must agree)",
 ]
 ASSUMPTIONS = [
     "0 < atol, 0 <= rtol (atol <= 0 makes log10 raise; outside the quantifier); |ints| < 2^53",
-    "strings are non-numeric ASCII words; dict keys are [a-z]+ (no dots, not 'root'); no ragged lists; one side never mixes text and numbers",
-    "where a list is expected, computed is a list or a length-less scalar (str/dict/ndarray would be zipped element-wise by the code: outside the quantifier); exact Python scalars are not compared with ndarrays",
-    "infinities, None without passnone, text given to compare_values, and leaves the statement leaves open (complex / np.int64 / int-vs-float leaves that differ within tolerance, sign flips of exact Python scalars) are checked differentially only: the oracle demands nothing there",
-    "compare_molrecs: relative_geoms='exact' only; its dictionary normalisation is checked by the Python oracle only (the model receives the normalised dictionaries)",
+    "strings are non-numeric ASCII text (any characters incl. blanks and dots; hex-escaped on the wire); dict keys are text (int keys would collide with their str() in the dotted names); one side never mixes text and numbers inside one array-like",
+    "R / V / E lines (old scope): dict keys [a-z_]+, no list-vs-str/dict/ndarray pairs, no ragged lists, exact Python scalars not compared with ndarrays - the narrow model answers 'unmodelled' there; the W lines lift these",
+    "still outside the wide model ('unmodelled', never generated): exact (non-float) array comparison against data mixing text and numbers, a numpy exact scalar vs a list holding a dict, ragged or dict-holding `expected` handed directly to compare_values / compare (compare_values raises ValueError there in NumPy >= 1.24: the statement's quantifier is scalars/arrays)",
+    "infinities, None without passnone, text given to compare_values, and leaves the statement leaves open (complex / np.int64 / int-vs-float leaves that differ within tolerance, sign flips of exact Python scalars, an exact leaf against a ONE-element ndarray / list holding the same value) are checked differentially only: the oracle demands nothing there",
+    "forgive / equal_phase entries: the oracle reads an entry as naming the node(s) whose key sequence joins to it (with or without the 'root.' prefix) and everything below; with a top-level key 'root…' an entry 'root.x' is ambiguous (top-level x, the code's reading, or root -> x): nothing is demanded where the two readings differ; entries are non-empty",
+    "compare_molrecs: relative_geoms='align' (B787 alignment branch, testing.py:567-605) is NOT modelled and not generated; every other value takes the 'exact' path; fragment_files entries are text (str() of other objects not modelled); bond orders are numbers (they take part in the tuple sort); records are dicts; the exceptions massage_dicts raises on malformed records (KeyError without provenance.version, ValueError/TypeError/OverflowError on malformed separators / bonds) are tied model-vs-code only, the oracle demands nothing there",
+    "ProtoModel.compare: models that inherit it (AtomicInput, AtomicResult, Provenance, locally defined models ...); Molecule overrides .compare with a deprecated hash-based == and is therefore only covered as a nested field",
 ]
 RULE = (
     "one case = one protocol line (helper, tolerances/flags, expected tree, computed tree). V: scalars/arrays of shape 0-3d "
@@ -67,14 +97,32 @@ RULE = (
     "R: random trees of depth <= 4 (dict/list/Python and numpy scalars/ndarrays/None/models) with 0-3 mutations (leaf perturbed "
     "within/at/beyond tolerance, exact leaf changed, key dropped/added, length changed, dict or list replaced by a scalar), forgive lists "
     "(paths of mutated nodes, parents, unrelated, overlapping, string-prefix siblings; with and without 'root.'), equal_phase False/True/list, "
-    "atol >= 1; plus ProtoModel.compare and compare_molrecs streams. A case is distinct by its line and non-trivial when computed differs "
-    "from expected or an option is non-default."
+    "atol >= 1; plus ProtoModel.compare and compare_molrecs streams. "
+    "W (extension): the same call on pairs outside the old scope, each embedded 0-3 levels deep with forgive / equal_phase entries on and around it: "
+    "list vs str (same / one char off / longer / multi-char item), list vs dict (keys same / permuted / changed / extra), list vs 1-d and 2-d ndarray "
+    "(same / tolerance-edge / changed / length / 0-d), exact leaf vs ndarray of size 0/1/2/3 and shapes () (1,) (1,1) (2,) (0,) (2,1), numpy exact scalar "
+    "vs list of size 0/1/2 / nested / ragged, ragged nested lists under float / int / str leaves and arrays; the R stream with keys renamed to dotted / "
+    "'root' / blank-holding keys, and hand-shaped alias families (key 'a.b' beside nested a->b, key 'a.x' beside a forgiven 'a', a key 'root', "
+    "equal_phase lists over dotted keys). "
+    "P (extension): real AtomicInput / AtomicResult / Provenance instances (nested Molecule, qcvars-style keys with dots and blanks) with one field "
+    "perturbed at the tolerance edge of the DEFAULT or an explicit atol/rtol, through instance.compare(other, **kw); the line carries the .dict() trees. "
+    "M (extension): RAW molecule records from molparse.from_string (+connectivity, fragment_files) with one site changed (geom / mass / charge at "
+    "the tolerance edge, version, other provenance field, missing version, bonds reversed / permuted / np.int64 / list-typed / order perturbed / "
+    "extra / malformed, plus a directed family of 2-4 random bonds re-listed in shuffled order with reversed pairs (ties on the first atom) or one bond changed, separators as np.int64 / ndarray / floats / NaN / None, units, files, dropped key, geom list-vs-ndarray), default or explicit "
+    "tolerances, forgive lists, relative_geoms exact/other, through compare_molrecs itself. "
+    "A case is distinct by its line and non-trivial when computed differs from expected or an option is non-default."
 )
 LEVEL_TEXT = (
     "proof for the decision logic of the model: characterisation theorems for compare_values / compare, and the full compare_recursive_iff "
     "(forgive and equal_phase included) by mutual induction over all trees plus a permutation-invariant specification of the filtering loops; "
-    "limits: float behaviour is exact only on representable / wide-margin cases, the model is tied to the code by sampled correspondence, "
-    "the recursion theorems assume the modelled input scope (no list-vs-str/dict/ndarray pairs etc.)"
+    "extension: the wide recursion (list vs str/dict = one error entry, list vs ndarray = its rows, exact leaf vs array = mismatch unless ONE equal element, "
+    "ragged computed, arbitrary key text) with compare_recursiveW_iff / _raises_iff (only atol >= 1 raises) and a PROVED conservative-extension theorem back to the narrow model; compare_molrecs modelled on the raw "
+    "records (normalisation characterised field by field, verdict and exception characterisation proved); ProtoModel.compare = compare_recursive with "
+    "the keyword defaults. limits (partial): float behaviour is exact only on representable / wide-margin cases; the models are tied to the code by "
+    "sampled correspondence; compare_recursiveW_iff is stated over the recursion's error-entry names (the declarative ErrAt description is proved for the "
+    "narrow scope only, the new pairs are reduced to it by recErrsW_list_strdict / recErrsW_list_seq / exactLeafW_arr / compareValuesW_ragged); that dotted names identify nodes "
+    "uniquely when no key contains '.' is not proved in Lean - it is checked on every R line by running the dotted-name and the segment-sequence oracle "
+    "side by side; relative_geoms='align' is not modelled; one open known finding: dotted names alias when a key contains '.' (oracle:dotted_key_path_alias)"
 )
 TECHNIQUE = "Lean 4 proof over a hand-written model + behavioural correspondence (line protocol) + independent exact-rational oracle"
 
@@ -122,6 +170,38 @@ def xr_parse(s: str):
 
 SC_TAGS = "NBIFCSfibc"
 
+_SAFE = set("abcdefghijklmnopqrstuvwxyzABCDEFGHIJKLMNOPQRSTUVWXYZ0123456789_.-+()[]{}<>=*/@#%^&~!?$;'\"")
+
+
+def tok_safe(s: str) -> bool:
+    return all(ch in _SAFE for ch in s)
+
+
+def hexs(s: str) -> str:
+    if not s.isascii():
+        raise ValueError(f"text outside the protocol alphabet: {s!r}")
+    return s.encode("ascii").hex()
+
+
+def enc_key(key: str) -> str:
+    return f"K:{key}" if tok_safe(key) else f"J:{hexs(key)}"
+
+
+def enc_paths(ps) -> str:
+    if all(tok_safe(x) and x != "" for x in ps) or not ps:
+        return "l:" + ",".join(ps)
+    return "x:" + ",".join(hexs(x) for x in ps)
+
+
+def dec_paths(body: str):
+    """`l:a,b` | `x:<hex>,<hex>` -> list"""
+    tag, rest = body[:2], body[2:]
+    if not rest:
+        return []
+    if tag == "x:":
+        return [bytes.fromhex(h).decode("ascii") for h in rest.split(",")]
+    return rest.split(",")
+
 
 def enc(t) -> str:
     k = t[0]
@@ -136,11 +216,11 @@ def enc(t) -> str:
     if k in "Cc":
         return k + xr_str(t[1]) + ";" + xr_str(t[2])
     if k == "S":
-        return "S:" + t[1]
+        return "S:" + t[1] if tok_safe(t[1]) else "Z:" + hexs(t[1])
     if k == "L":
         return " ".join([f"L{len(t[1])}"] + [enc(x) for x in t[1]])
     if k == "D":
-        return " ".join([f"D{len(t[1])}"] + [f"K:{key} {enc(v)}" for key, v in t[1]])
+        return " ".join([f"D{len(t[1])}"] + [f"{enc_key(key)} {enc(v)}" for key, v in t[1]])
     if k == "A":
         return " ".join([f"A{t[1]}{len(t[2])}"] + [str(d) for d in t[2]] + [enc(x) for x in t[3]])
     raise ValueError(k)
@@ -161,6 +241,8 @@ def _dec_sc(tok):
         return (k, xr_parse(a), xr_parse(b))
     if k == "S":
         return ("S", tok[2:])
+    if k == "Z":
+        return ("S", bytes.fromhex(tok[2:]).decode("ascii"))
     raise ValueError(tok)
 
 
@@ -180,7 +262,7 @@ def _dec(toks, i):
         out = []
         i += 1
         for _ in range(n):
-            key = toks[i][2:]
+            key = toks[i][2:] if toks[i][0] == "K" else bytes.fromhex(toks[i][2:]).decode("ascii")
             x, i = _dec(toks, i + 1)
             out.append((key, x))
         return ("D", out), i
@@ -259,9 +341,11 @@ def to_spec(o):
     if isinstance(o, complex):
         return ("C", xr_of_float(o.real), xr_of_float(o.imag))
     if isinstance(o, str):
-        if any(ch.isspace() or ch == "|" for ch in o) or not o.isascii():
+        if not o.isascii():
             raise ValueError(f"text outside the protocol alphabet: {o!r}")
-        return ("S", o)
+        if isinstance(o, enum.Enum):
+            o = o.value
+        return ("S", str(o))
     if isinstance(o, (list, tuple)):
         return ("L", [to_spec(x) for x in o])
     if isinstance(o, dict):
@@ -664,6 +748,290 @@ def oracle_recursive(e, c, atol, rtol, forgive, phase, tw=frozenset()):
     return "T"
 
 
+
+# ======================================================================================
+# WIDE scope (extension): list vs str/dict/ndarray, exact leaf vs ndarray, ragged computed, arbitrary keys
+# (dots, 'root', blanks).  Nodes are identified by their key/index SEQUENCE, not by the dotted name.
+
+# counterfactual readings used only to CLASSIFY a disagreement: three defect classes repaired in /repo
+# (91c6178 exact leaf vs array raised, 8b4dd2e list zipped with str/dict, ef204ac bonds sorted by first atom only)
+# - a match is a regression - and the one open finding (dotted names alias when a key contains '.')
+NEW_TWEAKS = ["seq_zipped", "exact_vs_array_raises", "dotted_alias", "conn_partial_sort"]
+NEW_REPAIRED = {"seq_zipped", "exact_vs_array_raises", "conn_partial_sort"}
+NEW_TWEAK_KIND = {
+    "seq_zipped": "oracle:list_vs_sized_nonlist_zipped",
+    "exact_vs_array_raises": "oracle:exact_leaf_vs_array_raises",
+    "dotted_alias": "oracle:dotted_key_path_alias",
+    "conn_partial_sort": "oracle:molrecs_bond_order_partial_sort",
+}
+
+
+def seq_view(c):
+    """what `len(computed)` / iteration give: list of specs, or None when len() raises TypeError"""
+    k = c[0]
+    if k == "L":
+        return list(c[1])
+    if k == "S":
+        return [("S", ch) for ch in c[1]]
+    if k == "D":
+        return [("S", key) for key, _ in c[1]]
+    if k == "A":
+        shape = list(c[2])
+        if not shape:
+            return None
+        n, rest = shape[0], shape[1:]
+        if not rest:
+            return list(c[3][:n])
+        sz = int(np.prod(rest))
+        return [("A", c[1], rest, list(c[3][i * sz : (i + 1) * sz])) for i in range(n)]
+    return None
+
+
+def walk2(e, c, segs, atol, rtol, tw, out):
+    """like `walk`, with nodes named by their segment tuple and the wide pairs decided by the property"""
+    k = e[0]
+    if k == "D":
+        if c[0] != "D":
+            if "nondict_raises" in tw:
+                raise _Raise("AttributeError")
+            out.append((segs, "fail", "fail"))
+            return
+        ek, ck = [x for x, _ in e[1]], dict(c[1])
+        if set(ek) != set(ck):
+            out.append((segs, "fail", "fail"))
+        for key, v in e[1]:
+            if key in ck:
+                walk2(v, ck[key], segs + (key,), atol, rtol, tw, out)
+        return
+    if k == "L":
+        if c[0] in "SD" and "seq_zipped" not in tw:
+            out.append((segs, "fail", "fail"))  # a str / dict is not a list, whatever its characters / keys are
+            return
+        cs = seq_view(c)
+        if cs is None or len(cs) != len(e[1]):
+            out.append((segs, "fail", "fail"))
+            return
+        for i, (x, y) in enumerate(zip(e[1], cs)):
+            walk2(x, y, segs + (str(i),), atol, rtol, tw, out)
+        return
+    if k == "N":
+        st = "ok" if c[0] == "N" else "fail"
+        out.append((segs, st, st))
+        return
+    if k == "b" and "npbool_fails" in tw:
+        out.append((segs, "fail", "fail"))
+        return
+    numeric_leaf = k in "Ffi" or (k == "A" and e[1] == "f")
+    if numeric_leaf:
+        fc = flat_of(c)
+        if isinstance(fc, str) or any(num_parts(x) is None for x in fc[1]):
+            out.append((segs, "fail", "fail"))  # ragged / dict / text: not numeric data of that shape
+            return
+        p = oracle_values(e, c, atol, rtol, False, False, False, tw)
+        q = oracle_values(e, c, atol, rtol, False, True, False, tw)
+        sp, sq = _tri_not(p), _tri_not(q)
+        cp, cq = sp, sq
+        if k == "i" and p is True and not oracle_exact(e, c, False):
+            sp = "either"
+        if k == "i" and q is True and not oracle_exact(e, c, True):
+            sq = "either"
+        out.append((segs, sp, sq, cp, cq))
+        return
+    if k == "A":
+        if isinstance(flat_of(c), str):
+            out.append((segs, "fail", "fail"))  # ragged / dict-holding computed: not an array of that shape
+            return
+        p, q = oracle_exact(e, c, False), oracle_exact(e, c, True)
+        sp, sq = _tri_not(p), _tri_not(q)
+        cp, cq = sp, sq
+        if e[1] == "c":
+            if p is False and oracle_values(e, c, atol, rtol, False, False, False) is not False:
+                sp = "either"
+            if q is False and oracle_values(e, c, atol, rtol, False, True, False) is not False:
+                sq = "either"
+        out.append((segs, sp, sq, cp, cq))
+        return
+    # exact scalars: S I B C c b
+    if c[0] == "A" or (c[0] == "L" and k in "cb"):
+        fl = flat_of(c)
+        if fl == "bad":
+            out.append((segs, "fail", "fail"))
+            return
+        size = None if fl == "ragged" else len(fl[1])
+        if "exact_vs_array_raises" in tw and size != 1:
+            raise _Raise("ValueError")  # (repaired 91c6178) truth value of an element-wise `!=` of size != 1
+        if size == 1:
+            eq = sc_equal(e, fl[1][0])
+            st = ("ok" if fl[0] == () else "either") if eq else "fail"  # a one-element array that holds the value: left open
+            out.append((segs, st, st, "ok" if eq else "fail", "ok" if eq else "fail"))
+        else:
+            out.append((segs, "fail", "fail"))  # a scalar never agrees with an array of another size
+        return
+    if c[0] in "LD":
+        out.append((segs, "fail", "fail"))
+        return
+    eq = sc_equal(e, c)
+    sp = "ok" if eq else "fail"
+    cp = sp
+    if not eq and k in "IBCcb" and num_parts(c) is not None:
+        r = oracle_values(e, c, atol, rtol, False, False, False)
+        if r is not False:
+            sp = "either"
+    sq = sp
+    if sp != "ok" and k in "ICc" and num_parts(c) is not None:
+        r = oracle_values(e, c, atol, rtol, False, True, False)
+        if r is not False:
+            sq = "either"
+    out.append((segs, sp, sq, cp, cp))
+
+
+def designated(segs, entry, strip):
+    """does the forgive / equal_phase entry name this node or one of its ancestors (by key sequence)?"""
+    f = entry[5:] if (strip and entry.startswith("root.")) else entry
+    return any(".".join(segs[:j]) == f for j in range(1, len(segs) + 1))
+
+
+def _name_under(segs, entry, loose=False):
+    """the code's reading: dotted NAME at/below the rootified entry"""
+    name = ".".join(("root",) + tuple(segs))
+    r = entry if entry.startswith("root.") else "root." + entry
+    return name.startswith(r) if loose else (name == r or name.startswith(r + "."))
+
+
+def _rec2_struct(nodes, forgive, phase, strip):
+    failing = [n for n in nodes if n[1] != "ok"]
+    phase_on = bool(phase) and bool(failing)
+    final = []
+    for segs, sp, sq, _cp, _cq in nodes:
+        if sp == "ok":
+            continue
+        st = sp
+        if phase_on and (phase is True or any(designated(segs, ep, strip) for ep in phase)):
+            st = sq
+        if st == "ok":
+            continue
+        if any(designated(segs, fg, strip) for fg in (forgive or [])):
+            continue
+        final.append(st)
+    return "F" if "fail" in final else None if "either" in final else "T"
+
+
+def _rec2_names(nodes, forgive, phase, loose):
+    """emulation of the code's name-based bookkeeping (used only to *classify* a disagreement)"""
+    errs = [n for n in nodes if n[3] != "ok"]
+    nm = lambda segs: ".".join(("root",) + tuple(segs))  # noqa
+    if errs and phase:
+        n_names = {nm(n[0]) for n in nodes if n[4] != "ok"}
+        keep = []
+        for n in errs:
+            allowed = phase is True or any(_name_under(n[0], ep, loose) for ep in phase)
+            if not (allowed and nm(n[0]) not in n_names):
+                keep.append(n)
+        errs = keep
+    errs = [n for n in errs if not any(_name_under(n[0], fg, loose) for fg in (forgive or []))]
+    return "F" if errs else "T"
+
+
+def oracle_recursive2(e, c, atol, rtol, forgive, phase, tw=frozenset()):
+    if atol >= 1:
+        return "raise:ValueError"
+    nodes = []
+    try:
+        walk2(e, c, (), atol, rtol, tw, nodes)
+    except _Raise as r:
+        return "raise:" + str(r)
+    nodes = [n if len(n) == 5 else (n[0], n[1], n[2], n[1], n[2]) for n in nodes]
+    if "dotted_alias" in tw or "prefix_loose" in tw:
+        return _rec2_names(nodes, forgive, phase, "prefix_loose" in tw)
+    a = _rec2_struct(nodes, forgive, phase, True)
+    entries = list(forgive or []) + (list(phase) if isinstance(phase, list) else [])
+    has_root_key = any(t[0] == "D" and any(k == "root" or k.startswith("root.") for k, _ in t[1]) for t in (e, c))
+    if has_root_key and any(x.startswith("root.") for x in entries):
+        # with a top-level key 'root…', an entry 'root.x' may name the top-level key x (the code's reading) or the path
+        # root -> x: demand nothing when the two readings differ
+        b = _rec2_struct(nodes, forgive, phase, False)
+        if a != b:
+            return None
+    return a
+
+
+# ---- compare_molrecs: the normalisation, stated on spec trees ------------------------------------------
+
+
+class _NoDemand(Exception):
+    pass
+
+
+def _num_val(t):
+    if t[0] in "Ii":
+        return Fr(t[1])
+    if t[0] in "Ff" and isinstance(t[1], Fr):
+        return t[1]
+    raise _NoDemand()
+
+
+def massage_spec(t, partial_sort=False):
+    """what compare_molrecs compares: text file names, integer separators, provenance minus the generator version,
+    bonds as (low atom, high atom, order) in a canonical order (independent of the listing order; `partial_sort` is the
+    behaviour before ef204ac, kept to classify a regression).  Raises _NoDemand where the record is not a molrec."""
+    if t[0] != "D":
+        raise _NoDemand()
+    out = []
+    for k, v in t[1]:
+        if k == "fragment_files":
+            xs = seq_view(v) if v[0] in "LA" else None
+            if xs is None or any(x[0] != "S" for x in xs):
+                raise _NoDemand()
+            v = ("L", [("S", x[1]) for x in xs])
+        elif k == "fragment_separators":
+            xs = seq_view(v) if v[0] in "LA" else None
+            if xs is None:
+                raise _NoDemand()
+            ys = []
+            for x in xs:
+                if x[0] == "N":
+                    ys.append(("N",))
+                elif x[0] in "IiBb":
+                    ys.append(("I", int(x[1])))
+                elif x[0] in "Ff" and isinstance(x[1], Fr):
+                    ys.append(("I", int(x[1])))  # int() truncates toward zero
+                else:
+                    raise _NoDemand()
+            v = ("L", ys)
+        elif k == "provenance":
+            if v[0] != "D" or "version" not in dict(v[1]):
+                raise _NoDemand()
+            v = ("D", [(kk, vv) for kk, vv in v[1] if kk != "version"])
+        elif k == "connectivity":
+            if v[0] != "L":
+                raise _NoDemand()
+            bonds = []
+            for b in v[1]:
+                if b[0] != "L" or len(b[1]) != 3:
+                    raise _NoDemand()
+                a1, a2, bo = b[1]
+                x, y = _num_val(a1), _num_val(a2)
+                bonds.append((a2 if y < x else a1, a2 if x < y else a1, bo))  # Python's min / max (first on ties)
+            if partial_sort:
+                bonds.sort(key=lambda b: _num_val(b[0]))
+            else:
+                def full(b):
+                    bo = b[2]
+                    return (_num_val(b[0]), _num_val(b[1]), bo[1] if bo[0] in "FfIi" and not isinstance(bo[1], str) else 0)
+                bonds.sort(key=full)
+            v = ("L", [("L", list(b)) for b in bonds])
+        out.append((k, v))
+    return ("D", out)
+
+
+def oracle_molrecs(e, c, atol, rtol, forgive, tw=frozenset()):
+    try:
+        me, mc = massage_spec(e, "conn_partial_sort" in tw), massage_spec(c, "conn_partial_sort" in tw)
+    except _NoDemand:
+        return None
+    return oracle_recursive2(me, mc, atol, rtol, forgive, False, tw)
+
+
 # ======================================================================================
 # running the implementation
 
@@ -689,6 +1057,10 @@ def canon(r):
     return "weird:" + repr(r)
 
 
+def _tol(x):
+    return None if x == "d" else float(Fr(x))
+
+
 def parse_line(line: str):
     f = line.split("|")
     op = f[0].strip()
@@ -697,18 +1069,27 @@ def parse_line(line: str):
         return op, dict(atol=float(Fr(a)), rtol=float(Fr(r)), equal_nan=en == "1", equal_phase=ep == "1", passnone=pn == "1"), dec(f[2]), dec(f[3])
     if op == "E":
         return op, dict(equal_phase=f[1].strip() == "1"), dec(f[2]), dec(f[3])
-    if op == "R":
+    if op in ("R", "W", "P"):
         a, r = f[1].split()
         ph = f[2].strip()
-        phase = False if ph == "0" else True if ph == "1" else [p for p in ph[2:].split(",")] if ph[2:] else []
+        phase = False if ph == "0" else True if ph == "1" else dec_paths(ph)
         fg = f[3].strip()
-        forgive = None if fg == "-" else ([p for p in fg[2:].split(",")] if fg[2:] else [])
-        return op, dict(atol=float(Fr(a)), rtol=float(Fr(r)), equal_phase=phase, forgive=forgive), dec(f[4]), dec(f[5])
+        forgive = None if fg == "-" else dec_paths(fg)
+        return op, dict(atol=_tol(a), rtol=_tol(r), equal_phase=phase, forgive=forgive), dec(f[4]), dec(f[5])
+    if op == "M":
+        a, r = f[1].split()
+        fg = f[3].strip()
+        forgive = None if fg == "-" else dec_paths(fg)
+        return op, dict(atol=_tol(a), rtol=_tol(r), relative_geoms=f[2].strip(), forgive=forgive), dec(f[4]), dec(f[5])
     raise ValueError(line)
 
 
 def fstr(x: float) -> str:
     return xr_str(Fr(x))
+
+
+def _tols(x):
+    return "d" if x is None else fstr(x)
 
 
 def make_line(op, opts, e, c) -> str:
@@ -717,11 +1098,13 @@ def make_line(op, opts, e, c) -> str:
         return f"V|{o}|{enc(e)}|{enc(c)}"
     if op == "E":
         return f"E|{int(opts['equal_phase'])}|{enc(e)}|{enc(c)}"
-    ph = opts["equal_phase"]
-    phs = "0" if ph is False else "1" if ph is True else "l:" + ",".join(ph)
     fg = opts["forgive"]
-    fgs = "-" if fg is None else "l:" + ",".join(fg)
-    return f"R|{fstr(opts['atol'])} {fstr(opts['rtol'])}|{phs}|{fgs}|{enc(e)}|{enc(c)}"
+    fgs = "-" if fg is None else enc_paths(fg)
+    if op == "M":
+        return f"M|{_tols(opts['atol'])} {_tols(opts['rtol'])}|{opts['relative_geoms']}|{fgs}|{enc(e)}|{enc(c)}"
+    ph = opts["equal_phase"]
+    phs = "0" if ph is False else "1" if ph is True else enc_paths(ph)
+    return f"{op}|{_tols(opts['atol'])} {_tols(opts['rtol'])}|{phs}|{fgs}|{enc(e)}|{enc(c)}"
 
 
 _VARIANTS = [
@@ -734,15 +1117,31 @@ _VARIANTS = [
 
 
 def run_impl(op, opts, e, c, variant=None, via=None):
-    """returns canonical answer and exception text.  `via`: None | ('model', E, C) | ('molrecs', E, C)"""
+    """returns canonical answer and exception text.
+    `via`: None | ('model', E, C) | ('molrecs', E, C) | ('proto', E, C) | ('molrecs_raw', E, C)"""
     from qcelemental import testing as T
 
-    fn = {"V": T.compare_values, "E": T.compare, "R": T.compare_recursive}[op]
-    kw = dict(opts)
+    fn = {"V": T.compare_values, "E": T.compare, "R": T.compare_recursive, "W": T.compare_recursive, "P": T.compare_recursive, "M": T.compare_molrecs}[op]
+    kw = {k: v for k, v in opts.items() if not (k in ("atol", "rtol") and v is None)}  # None = keyword not passed
+    if op in ("P", "M"):
+        # defaults of the callee stay defaults: only pass what the case sets
+        if kw.get("forgive") is None:
+            kw.pop("forgive", None)
+        if kw.get("equal_phase") is False:
+            kw.pop("equal_phase", None)
+    quiet_kw = "verbose" if op == "M" else "quiet"
+    def set_quiet(q):
+        if op == "M":
+            kw["verbose"] = 0 if q else 1
+        else:
+            kw["quiet"] = q
     if variant is None:
-        kw["quiet"] = True
+        set_quiet(True)
     elif isinstance(variant, dict):
-        kw.update(variant)
+        v = dict(variant)
+        if "quiet" in v:
+            set_quiet(v.pop("quiet"))
+        kw.update(v)
     else:
         seen = []
 
@@ -751,10 +1150,10 @@ def run_impl(op, opts, e, c, variant=None, via=None):
             return ("H", passfail)
 
         kw["return_handler"] = handler
-        kw["quiet"] = True
+        set_quiet(True)
         if variant == "handler_msg":
             kw["return_message"] = True
-    if via is not None and via[0] == "model":
+    if via is not None and via[0] in ("model", "proto"):
         E, C = via[1], via[2]
         r, msg = impl_call(lambda a, b, **k: a.compare(b, **k), E, C, **kw)
     elif via is not None and via[0] == "molrecs":
@@ -762,11 +1161,22 @@ def run_impl(op, opts, e, c, variant=None, via=None):
         kw.pop("equal_phase", None)
         kw["verbose"] = 0
         r, msg = impl_call(T.compare_molrecs, via[1], via[2], **kw)
+    elif via is not None and via[0] == "molrecs_raw":
+        r, msg = impl_call(T.compare_molrecs, copy.deepcopy(via[1]), copy.deepcopy(via[2]), **kw)
     else:
         r, msg = impl_call(fn, build(e), build(c), **kw)
     if isinstance(r, tuple) and len(r) == 2 and r[0] == "H":
         r = r[1]
     return canon(r), msg
+
+
+DEF_ATOL, DEF_RTOL = 1.0e-6, 1.0e-16  # keyword defaults of compare_recursive / compare_molrecs (testing.py:400-401, 514-515)
+
+
+def eff_tols(opts):
+    a = DEF_ATOL if opts.get("atol") is None else opts["atol"]
+    r = DEF_RTOL if opts.get("rtol") is None else opts["rtol"]
+    return a, r
 
 
 def oracle_for(op, opts, e, c, tw=frozenset()):
@@ -776,14 +1186,20 @@ def oracle_for(op, opts, e, c, tw=frozenset()):
     if op == "E":
         r = oracle_exact(e, c, opts["equal_phase"])
         return None if r is None else ("T" if r else "F")
-    return oracle_recursive(e, c, Fr(opts["atol"]), Fr(opts["rtol"]), opts["forgive"], opts["equal_phase"], tw)
+    if op == "R":
+        return oracle_recursive(e, c, Fr(opts["atol"]), Fr(opts["rtol"]), opts["forgive"], opts["equal_phase"], tw)
+    a, r = eff_tols(opts)
+    if op == "M":
+        return oracle_molrecs(e, c, Fr(a), Fr(r), opts["forgive"], tw)
+    return oracle_recursive2(e, c, Fr(a), Fr(r), opts["forgive"], opts["equal_phase"], tw)
 
 
 def classify(op, opts, e, c, impl):
     """the baseline oracle disagrees with the implementation: does one of the five defect classes repaired in /repo
     (6bb542d, 9979db7, 2189975, cf6f150, ca03624) explain it?  Only used to give the violation a specific kind."""
-    for n in range(1, len(TWEAKS) + 1):
-        for sub in itertools.combinations(TWEAKS, n):
+    tweaks = TWEAKS if op in "VER" else NEW_TWEAKS + ["prefix_loose", "npbool_fails", "nondict_raises", "cplx_cast"]
+    for n in range(1, 4):
+        for sub in itertools.combinations(tweaks, n):
             if oracle_for(op, opts, e, c, frozenset(sub)) == impl:
                 return list(sub)
     return None
@@ -800,20 +1216,28 @@ def check_line(ctx, out: Outcome, block, line, model_line, via=None, variant_rng
         out.nontrivial(line)
     exp = oracle_for(op, opts, e, c)
     out.count("oracle:" + ("undetermined" if exp is None else exp))
+    if op == "R":
+        # the segment-based oracle of the extension must say the same as the dotted-name oracle on the old scope
+        exp2 = oracle_recursive2(e, c, Fr(opts["atol"]), Fr(opts["rtol"]), opts["forgive"], opts["equal_phase"])
+        if exp2 != exp:
+            out.mismatches.append(Finding("oracle-self-check", {"line": line}, observed=exp2, expected=exp, detail="segment-based oracle vs dotted-name oracle on an old-scope case"))
     if len(out.samples) < 6 and (out.evaluations % 997 == 1):
         out.sample({"line": line[:400], "impl": impl, "model": model_line, "oracle": exp})
     case = {"line": line}
     if via is not None:
         case["via"] = via[0]
+        if via[0] == "proto":
+            case["cls"] = via[3]
     if exp is not None and exp != impl:
         sub = classify(op, opts, e, c, impl)
         if sub:
-            kind = TWEAK_KIND[sub[0]]
+            kind = {**TWEAK_KIND, **NEW_TWEAK_KIND}[sub[0]]
             case["classified_by"] = sub
             out.count("defect-class:" + "+".join(sub))
         else:
-            kind = {"V": "oracle:values_verdict", "E": "oracle:exact_verdict", "R": "oracle:recursive_verdict"}[op]
-        out.violations.append(Finding(kind, case, observed=impl, expected=exp, detail=(msg or "verdict differs from the property") + (f" [matches repaired defect class(es) {sub}: regression]" if sub else "")))
+            kind = {"V": "oracle:values_verdict", "E": "oracle:exact_verdict", "R": "oracle:recursive_verdict", "W": "oracle:recursive_verdict",
+                    "P": "oracle:protomodel_compare_verdict", "M": "oracle:molrecs_verdict"}[op]
+        out.violations.append(Finding(kind, case, observed=impl, expected=exp, detail=(msg or "verdict differs from the property") + ((f" [matches repaired defect class(es) {sub}: regression]" if set(sub) <= set(TWEAKS) | NEW_REPAIRED else f" [matches defect class(es) {sub}]") if sub else "")))
     # reporting options do not change the verdict
     if variant_rng is not None and not impl.startswith("raise"):
         v = variant_rng.choice(_VARIANTS)
@@ -1489,6 +1913,279 @@ def gen_R_directed(ctx: Ctx):
             yield "Rd", make_line("R", o, e, c)
 
 
+
+# ======================================================================================
+# WIDE generators (extension)
+
+KEYS_W = ["a", "a.b", "a.x", "b", "ab", "root", "root.a", "x", "MP2.5", "g h", "a.b.c", "b.0"]
+
+
+def rec_safe2(e, c, atol, rtol) -> bool:
+    if e[0] == "D":
+        if c[0] != "D":
+            return True
+        cd = dict(c[1])
+        return all(rec_safe2(v, cd[k], atol, rtol) for k, v in e[1] if k in cd)
+    if e[0] == "L":
+        cs = seq_view(c)
+        if cs is None or len(cs) != len(e[1]):
+            return True
+        return all(rec_safe2(x, y, atol, rtol) for x, y in zip(e[1], cs))
+    return values_safe(e, c, atol, rtol, True)
+
+
+def wide_modelled(e, c) -> bool:
+    """what the wide model still answers `unmodelled` (ASSUMPTIONS): never generated"""
+    if e[0] == "D":
+        if c[0] != "D":
+            return True
+        cd = dict(c[1])
+        return all(wide_modelled(v, cd[k]) for k, v in e[1] if k in cd)
+    if e[0] == "L":
+        cs = seq_view(c)
+        if cs is None or len(cs) != len(e[1]):
+            return True
+        return all(wide_modelled(x, y) for x, y in zip(e[1], cs))
+    if e[0] == "N":
+        return True
+    fc = flat_of(c)
+    if e[0] in "cb" and c[0] == "L" and fc == "bad":
+        return False  # numpy scalar vs a list holding a dict
+    if e[0] == "A" and e[1] != "f":
+        if kind_of(e[3]) is None:
+            return False
+        if not isinstance(fc, str) and kind_of(fc[1]) is None:
+            return False  # exact array comparison against mixed text/number data
+    return True
+
+
+def embed(rng, e, c, keys=None):
+    """put the pair under 0-2 levels of dict / list context; returns e, c, segs of the pair"""
+    keys = keys or KEYS
+    segs = []
+    for _ in range(rng.choice([0, 1, 1, 2])):
+        if rng.random() < 0.7:
+            k, sk = rng.sample(keys, 2)
+            sib = gen_leaf(rng)
+            ie, ic = [(k, e), (sk, sib)], [(k, c), (sk, sib)]
+            if rng.random() < 0.5:
+                ie.reverse()
+            if rng.random() < 0.5:
+                ic.reverse()
+            e, c = ("D", ie), ("D", ic)
+            segs.insert(0, k)
+        else:
+            pre = [gen_leaf(rng) for _ in range(rng.randint(0, 2))]
+            e, c = ("L", pre + [e]), ("L", pre + [c])
+            segs.insert(0, str(len(pre)))
+    if e[0] != "D" and rng.random() < 0.8:
+        k = rng.choice(keys)
+        e, c = ("D", [(k, e)]), ("D", [(k, c)])
+        segs.insert(0, k)
+    return e, c, segs
+
+
+def _opts_for(rng, atol, rtol, segs, allow_phase=True):
+    path = ".".join(segs)
+    forgive = None
+    r = rng.random()
+    if r < 0.35 and segs:
+        cand = [path, ".".join(segs[:-1]) or path, "nokey", segs[0], "root." + path]
+        forgive = rng.sample(cand, rng.randint(1, 2))
+        forgive = [x for x in forgive if x]
+    phase = False
+    if allow_phase and rng.random() < 0.25:
+        phase = rng.choice([True, [path] if path else True, [segs[0]] if segs else True])
+    return dict(atol=atol, rtol=rtol, equal_phase=phase, forgive=forgive)
+
+
+def gen_W_directed(ctx: Ctx, n):
+    """the pairs outside the old scope, each embedded at a random depth, with forgive / phase options around them"""
+    rng = ctx.rng
+    made = 0
+    py = {"f": "F", "i": "I", "b": "B", "c": "C", "s": "S"}
+    while made < n:
+        atol, rtol = pick_tols(rng, True)
+        fam = rng.choice(["list_str", "list_dict", "list_arr", "list_arr", "list_arr2d", "exact_arr", "exact_arr", "npexact_list", "ragged", "ragged"])
+        if fam == "list_str":
+            chars = [rng.choice("abxyH") for _ in range(rng.randint(0, 3))]
+            es = [("S", ch) for ch in chars]
+            m = rng.choice(["same", "same", "onechar", "longer", "multi", "nonstr"])
+            txt = "".join(chars)
+            if m == "onechar" and chars:
+                txt = txt[:-1] + "q"
+            elif m == "longer":
+                txt = txt + "z"
+            elif m == "multi" and es:
+                es[0] = ("S", es[0][1] + "b")
+            elif m == "nonstr" and es:
+                es[0] = rng.choice([("I", 1), ("L", [("S", chars[0])]), ("F", Fr(1))])
+            e, c = ("L", es), ("S", txt)
+        elif fam == "list_dict":
+            ks = rng.sample(["a", "b", "x", "He", "geom"], rng.randint(0, 3))
+            es = [("S", k) for k in ks]
+            m = rng.choice(["same", "same", "perm", "other", "extra"])
+            cks = list(ks)
+            if m == "perm":
+                rng.shuffle(cks)
+            elif m == "other" and cks:
+                cks[0] = cks[0] + "q"
+            elif m == "extra":
+                cks.append("zz")
+            e, c = ("L", es), ("D", [(k, gen_leaf(rng)) for k in cks])
+        elif fam == "list_arr":
+            kind = rng.choice(["f", "f", "i", "b", "s", "c"])
+            nel = rng.randint(0, 3)
+            def el(kind=kind):
+                if kind == "f":
+                    return ("f", pick_ref(rng, True))
+                if kind == "i":
+                    return ("i", rng.choice([0, 1, 2, -3]))
+                if kind == "b":
+                    return ("b", rng.random() < 0.5)
+                if kind == "s":
+                    return ("S", rng.choice(WORDS))
+                return ("c", Fr(rng.choice([0, 1])), Fr(rng.choice([1, -2])))
+            flat = [el() for _ in range(nel)]
+            es = [(py[kind],) + tuple(x[1:]) for x in flat]
+            if kind in "fi" and rng.random() < 0.3:
+                es = [("f" if kind == "f" else "i",) + tuple(x[1:]) for x in es]  # numpy scalars expected
+            m = rng.choice(["same", "edge", "change", "len", "zerod"])
+            cf = list(flat)
+            if m in ("edge", "change") and cf:
+                i = rng.randrange(len(cf))
+                cf[i] = mutate_leaf(rng, cf[i], atol, rtol, False)
+                if cf[i][0] not in "fibcS" or (cf[i][0] == "S") != (kind == "s"):
+                    cf[i] = flat[i]
+                cf[i] = ({"F": "f", "I": "i", "B": "b", "C": "c"}.get(cf[i][0], cf[i][0]),) + tuple(cf[i][1:])
+                if ARR_ELEM[kind] != cf[i][0]:
+                    cf[i] = flat[i]
+            if m == "len":
+                cf = cf + [el()]
+            e = ("L", es)
+            c = ("A", kind, [len(cf)], cf) if m != "zerod" else ("A", kind, [], [el()])
+        elif fam == "list_arr2d":
+            kind = rng.choice(["f", "i", "i", "s"])
+            r_, c_ = rng.choice([(2, 1), (2, 2), (1, 2), (2, 0)])
+            def el(kind=kind):
+                return ("f", pick_ref(rng, True)) if kind == "f" else ("i", rng.choice([0, 1, 2])) if kind == "i" else ("S", rng.choice(["a", "b"]))
+            flat = [el() for _ in range(r_ * c_)]
+            m = rng.choice(["rows", "rows", "flatexp", "change"])
+            if m == "flatexp":
+                # expected is a flat list of scalars, computed a 2-d array: every row is an array under an exact / numeric leaf
+                es = [(py[kind],) + tuple(flat[i * c_][1:]) if c_ else (py[kind], 0) if kind == "i" else (py[kind], Fr(0)) if kind == "f" else ("S", "a") for i in range(r_)]
+                e = ("L", es)
+            else:
+                e = ("L", [("L", [(py[kind],) + tuple(x[1:]) for x in flat[i * c_ : (i + 1) * c_]]) for i in range(r_)])
+            cf = list(flat)
+            if m == "change" and cf:
+                i = rng.randrange(len(cf))
+                cf[i] = ("f", perturb(rng, cf[i][1], atol, rtol, rng.choice(["ulp_above", "at", "far"]))) if kind == "f" else ("i", cf[i][1] + 1) if kind == "i" else ("S", cf[i][1] + "q")
+            c = ("A", kind, [r_, c_], cf)
+        elif fam == "exact_arr":
+            e = rng.choice([("S", rng.choice(["abc", "H", ""])), ("I", rng.choice([0, 1, 5])), ("B", rng.random() < 0.5), ("C", Fr(1), Fr(-1)), ("c", Fr(0), Fr(2)), ("b", rng.random() < 0.5)])
+            kind = {"S": "s", "I": "i", "B": "b", "C": "c", "c": "c", "b": "b"}[e[0]]
+            if rng.random() < 0.15:
+                kind = rng.choice(["i", "f", "s"])
+            same = (ARR_ELEM[kind],) + tuple(e[1:]) if kind == {"S": "s", "I": "i", "B": "b", "C": "c", "c": "c", "b": "b"}[e[0]] else {"i": ("i", 1), "f": ("f", Fr(1)), "s": ("S", "1")}[kind]
+            other = {"s": ("S", "zz"), "i": ("i", 77), "b": ("b", not e[1]) if e[0] in "Bb" else ("b", True), "c": ("c", Fr(5), Fr(5)), "f": ("f", Fr(9))}[kind]
+            shape = rng.choice([[], [1], [1, 1], [2], [0], [2, 1], [3]])
+            size = int(np.prod(shape)) if shape else 1
+            flat = [same if rng.random() < 0.7 else other for _ in range(size)]
+            c = ("A", kind, shape, flat)
+        elif fam == "npexact_list":
+            e = rng.choice([("c", Fr(0), Fr(2)), ("b", rng.random() < 0.5), ("b", True)])
+            same = ("C", e[1], e[2]) if e[0] == "c" else ("B", e[1])
+            other = ("C", Fr(3), Fr(3)) if e[0] == "c" else ("B", not e[1])
+            pick = lambda: same if rng.random() < 0.7 else rng.choice([other, ("N",), ("S", "w")])  # noqa
+            c = rng.choice([("L", []), ("L", [pick()]), ("L", [("L", [pick()])]), ("L", [pick(), pick()]), ("L", [("L", [same, same]), ("L", [same])]), ("L", [same, ("L", [same])])])
+            if not isinstance(flat_of(c), str) and kind_of(flat_of(c)[1]) is None:
+                continue
+        else:  # ragged computed under a numeric / array leaf
+            kind = rng.choice(["f", "f", "i", "s"])
+            def el(kind=kind, np_=False):
+                t = {"f": "f" if np_ else "F", "i": "i" if np_ else "I", "s": "S"}[kind]
+                return (t, pick_ref(rng, True)) if kind == "f" else (t, rng.choice([0, 1, 2])) if kind == "i" else (t, rng.choice(["a", "b"]))
+            e = rng.choice([("A", kind, [2, 2], [el(np_=True) for _ in range(4)]), ("A", kind, [3], [el(np_=True) for _ in range(3)])]) if kind != "f" or rng.random() < 0.6 else el()
+            c = rng.choice([("L", [("L", [el(), el()]), ("L", [el()])]), ("L", [el(), ("L", [el()])]), ("L", [("L", [el(), el()]), el()])])
+        e, c, segs = embed(rng, e, c, KEYS_W if rng.random() < 0.3 else KEYS)
+        opts = _opts_for(rng, atol, rtol, segs)
+        if not wide_modelled(e, c) or not rec_safe2(e, c, atol, rtol):
+            continue
+        made += 1
+        yield "W:" + fam, make_line("W", opts, e, c)
+
+
+def rename_keys(t, mp):
+    if t[0] == "D":
+        return ("D", [(mp.get(k, k), rename_keys(v, mp)) for k, v in t[1]])
+    if t[0] == "L":
+        return ("L", [rename_keys(v, mp) for v in t[1]])
+    return t
+
+
+def rename_path(p, mp):
+    return ".".join(mp.get(x, x) for x in p.split("."))
+
+
+def gen_W_keys(ctx: Ctx, n):
+    """arbitrary dictionary keys: the random R stream with keys renamed to dotted / 'root' / blank-holding ones, plus
+    hand-shaped alias families (a key 'a.b' beside a nested a -> b; a key 'a.x' beside a forgiven 'a'; a key 'root')"""
+    rng = ctx.rng
+    made = 0
+    while made < n:
+        if rng.random() < 0.5:
+            opts, e, c = gen_R_case(rng)
+            if not modelled_pair(e, c) or not rec_safe(e, c, opts["atol"], opts["rtol"]):
+                continue
+            tgt = rng.sample(KEYS_W, len(KEYS))
+            mp = {k: t for k, t in zip(KEYS, tgt) if rng.random() < 0.6}
+            if len(set(mp.get(k, k) for k in KEYS)) < len(KEYS):
+                continue  # keep keys unique
+            e, c = rename_keys(e, mp), rename_keys(c, mp)
+            fix = lambda ps: None if ps is None else [("root." + rename_path(p[5:], mp)) if p.startswith("root.") else rename_path(p, mp) for p in ps]  # noqa
+            opts = dict(opts, forgive=fix(opts["forgive"]), equal_phase=fix(opts["equal_phase"]) if isinstance(opts["equal_phase"], list) else opts["equal_phase"])
+            made += 1
+            yield "Wk:renamed", make_line("W", opts, e, c)
+            continue
+        atol, rtol = pick_tols(rng, True)
+        x = pick_ref(rng, True)
+        good = perturb(rng, x, atol, rtol, rng.choice(["same", "at", "ulp_below"]))
+        bad = perturb(rng, x, atol, rtol, rng.choice(["ulp_above", "rel_above", "far"]))
+        v = lambda: ("F", rng.choice([good, bad]))  # noqa
+        k1, k2 = rng.choice([("a", "b"), ("a", "x"), ("b", "0"), ("root", "a"), ("MP2", "5")])
+        dotted = k1 + "." + k2
+        fam = rng.choice(["both", "sibling", "rootkey", "deep", "phase"])
+        phase = False
+        if fam == "both":  # a key 'k1.k2' beside the nested k1 -> k2: one dotted name for two nodes
+            e = ("D", [(dotted, ("F", x)), (k1, ("D", [(k2, ("F", x))]))])
+            c = ("D", [(dotted, v()), (k1, ("D", [(k2, v())]))])
+            forgive = rng.choice([[dotted], [k1], None, ["root." + dotted], [k2]])
+        elif fam == "sibling":  # forgiving k1 must not excuse the sibling key 'k1.k2'
+            e = ("D", [(k1, ("F", x)), (dotted, ("F", x))])
+            c = ("D", [(k1, v()), (dotted, v())])
+            forgive = rng.choice([[k1], [k1], [dotted], None, [k1, "nokey"]])
+        elif fam == "rootkey":  # a key literally named 'root'
+            e = ("D", [("root", ("D", [("a", ("F", x))])), ("a", ("F", x))])
+            c = ("D", [("root", ("D", [("a", v())])), ("a", v())])
+            forgive = rng.choice([["root"], ["root.a"], ["root.root.a"], ["a"], ["root.root"], None])
+        elif fam == "deep":
+            e = ("D", [(k1, ("D", [(dotted, ("F", x)), (k2, ("L", [("F", x)]))]))])
+            c = ("D", [(k1, ("D", [(dotted, v()), (k2, ("L", [v()]))]))])
+            forgive = rng.choice([[k1 + "." + k2], [k1 + "." + dotted], [k1 + "." + k2 + ".0"], [k1], None])
+        else:
+            e = ("D", [(k1, ("F", x)), (dotted, ("F", x))])
+            flipg = xr_neg(good) if x != 0 else bad
+            c = ("D", [(k1, ("F", rng.choice([flipg, good]))), (dotted, ("F", rng.choice([flipg, good, bad])))])
+            phase = rng.choice([True, [k1], [dotted], [k1, dotted]])
+            forgive = rng.choice([None, None, [k1]])
+        opts = dict(atol=atol, rtol=rtol, equal_phase=phase, forgive=forgive)
+        if not rec_safe2(e, c, atol, rtol):
+            continue
+        made += 1
+        yield "Wk:" + fam, make_line("W", opts, e, c)
+
+
 # ---- ProtoModel.compare and compare_molrecs ---------------------------------------------
 
 _models = {}
@@ -1622,6 +2319,254 @@ def stream_molrecs(ctx: Ctx, out: Outcome, pending):
         pending.append(("Mol", make_line("R", opts, es, cs), ("molrecs", rec, other)))
 
 
+
+# ---- extension: ProtoModel.compare on real models (P lines), compare_molrecs on RAW records (M lines) ----
+
+
+def construct_from_dict(cls, d):
+    """rebuild a model from its .dict() tree without validation (replay only)"""
+    amap = {f.alias: n for n, f in cls.__fields__.items()}
+    dd = {amap.get(k, k): v for k, v in d.items()}
+    return cls.construct(_fields_set=set(dd), **dd)
+
+
+_mol_cache = {}
+
+
+def _mol(s):
+    import qcelemental as qcel
+
+    if s not in _mol_cache:
+        _mol_cache[s] = qcel.models.Molecule.from_data(s)
+    return _mol_cache[s]
+
+
+def _upd(m, **kw):
+    return m.copy(update=kw)
+
+
+def stream_proto(ctx: Ctx, out: Outcome, pending):
+    import qcelemental as qcel
+
+    rng = ctx.rng
+    Molecule, AtomicInput, Provenance = qcel.models.Molecule, qcel.models.AtomicInput, qcel.models.Provenance
+    for _ in range(ctx.scale(500, 4000)):
+        atol, rtol = (None, None) if rng.random() < 0.5 else pick_tols(rng, True)
+        if atol is not None and rng.random() < 0.3:
+            rtol = None
+        ea, er = eff_tols(dict(atol=atol, rtol=rtol))
+        cls = rng.choice(["same", "at", "ulp_below", "ulp_above", "rel_above", "half", "far"])
+        # (Molecule overrides .compare with a deprecated hash-based `==`: not ProtoModel.compare; it enters nested)
+        which = rng.choice(["AtomicInput", "AtomicInput", "AtomicResult", "AtomicResult", "Provenance"])
+        flip = False
+        try:
+            m = _mol(rng.choice(MOLS))
+            extras = {"MP2.5 TOTAL ENERGY": -76.25, "nested": {"a.b": 1.5, "a": {"b": 2.5}}, "tags": ["x", "y"]} if rng.random() < 0.5 else None
+            if extras is not None:
+                m = _upd(m, extras=extras)
+            site = rng.choice(["none", "geometry", "geometry", "molecular_charge", "name", "symbols", "fix_com", "extras.dot", "extras.nested", "provenance.version", "flip"])
+            m2 = m
+            if site == "geometry":
+                g = np.array(m.geometry, copy=True)
+                i, j = rng.randrange(g.shape[0]), rng.randrange(3)
+                g[i, j] = float(perturb(rng, Fr(float(g[i, j])), ea, er, cls))
+                m2 = _upd(m, geometry=g)
+            elif site == "flip":
+                m2 = _upd(m, geometry=-np.array(m.geometry))
+                flip = True
+            elif site == "molecular_charge":
+                m2 = _upd(m, molecular_charge=float(perturb(rng, Fr(float(m.molecular_charge)), ea, er, cls)))
+            elif site == "name":
+                m2 = _upd(m, name="other")
+            elif site == "symbols":
+                m2 = _upd(m, symbols=np.array(["Xe"] + list(m.symbols[1:])))
+            elif site == "fix_com":
+                m2 = _upd(m, fix_com=not m.fix_com)
+            elif site == "extras.dot" and extras is not None:
+                ex = copy.deepcopy(extras)
+                ex["MP2.5 TOTAL ENERGY"] = float(perturb(rng, Fr(-76.25), ea, er, cls))
+                m2 = _upd(m, extras=ex)
+            elif site == "extras.nested" and extras is not None:
+                ex = copy.deepcopy(extras)
+                ex["nested"][rng.choice(["a.b", "a"])] = rng.choice([float(perturb(rng, Fr(1.5), ea, er, cls)), {"b": float(perturb(rng, Fr(2.5), ea, er, cls))}])
+                m2 = _upd(m, extras=ex)
+            elif site == "provenance.version":
+                m2 = _upd(m, provenance=_upd(m.provenance, version="0.0.0"))
+            fsite = "molecule." + {"extras.dot": "extras.MP2.5 TOTAL ENERGY", "extras.nested": "extras.nested.a", "flip": "geometry"}.get(site, site)
+            if which in ("AtomicInput", "AtomicResult"):
+                kw = {"e_convergence": 1.0e-7, "maxiter": 50, "frozen": True, "guess": "sad"}
+                a1 = AtomicInput(molecule=m, driver="energy", model={"method": "scf", "basis": "sto-3g"}, keywords=kw)
+                s2 = rng.choice(["molecule", "molecule", "keywords", "driver", "basis", "none"])
+                kw2 = dict(kw)
+                if s2 == "keywords":
+                    kw2["e_convergence"] = float(perturb(rng, Fr(1.0e-7), ea, er, cls))
+                a2 = AtomicInput(molecule=m, driver="gradient" if s2 == "driver" else "energy", model={"method": "scf", "basis": "6-31g" if s2 == "basis" else "sto-3g"}, keywords=kw2)
+                if s2 == "molecule":
+                    a2 = _upd(a2, molecule=m2)
+                else:
+                    flip = False
+                E, C = a1, a2
+                fcand = [None, None, None, ["molecule"], ["molecule.geometry"], ["keywords"], ["driver"], ["model.basis"], ["molecule.provenance"], [fsite],
+                         ["molecule.extras"], ["molecule.extras.nested.a"], ["molecule.extras.MP2"]]
+                if which == "AtomicResult":
+                    AtomicResult = qcel.models.AtomicResult
+                    rr = -76.0265
+                    props = {"return_energy": rr, "scf_total_energy": rr, "calcinfo_natom": len(m.symbols), "scf_iterations": 9}
+                    s3 = rng.choice(["none", "return_result", "props", "success_extras"])
+                    rr2 = float(perturb(rng, Fr(rr), ea, er, cls)) if s3 in ("return_result", "props") else rr
+                    props2 = dict(props, scf_total_energy=rr2) if s3 == "props" else props
+                    prov = {"creator": "prog", "version": "1.0", "routine": "r"}
+                    ex1 = {"qcvars": {"CCSD(T) TOTAL ENERGY": -76.3, "MP2.5 TOTAL ENERGY": -76.25}}
+                    ex2 = {"qcvars": {"CCSD(T) TOTAL ENERGY": -76.3, "MP2.5 TOTAL ENERGY": float(perturb(rng, Fr(-76.25), ea, er, cls))}} if s3 == "success_extras" else ex1
+                    r1 = AtomicResult(**{**a1.dict(), **dict(properties=props, return_result=rr, success=True, provenance=prov, extras=ex1)})
+                    r2 = AtomicResult(**{**a2.dict(), **dict(properties=props2, return_result=rr2 if s3 == "return_result" else rr, success=True, provenance=prov, extras=ex2)})
+                    E, C = r1, r2
+                    fcand += [["return_result"], ["properties"], ["properties.scf_total_energy"], ["extras.qcvars"], ["extras.qcvars.MP2"], ["extras.qcvars.MP2.5 TOTAL ENERGY"]]
+            else:
+                E = Provenance(creator="QCElemental", version="1.0", routine="r")
+                C = Provenance(creator=rng.choice(["QCElemental", "other"]), version=rng.choice(["1.0", "1.1"]), routine="r")
+                fcand = [None, None, ["version"], ["creator"]]
+                flip = False
+            forgive = rng.choice(fcand)
+            phase = rng.choice([True, ["geometry"], ["molecule.geometry"], ["molecule"]]) if (flip or rng.random() < 0.05) else False
+            opts = dict(atol=atol, rtol=rtol, equal_phase=phase, forgive=forgive)
+            es, cs = to_spec(E.dict()), to_spec(C.dict())
+        except ValueError:
+            out.count("proto:skipped")
+            continue
+        if not rec_safe2(es, cs, ea, er) or not wide_modelled(es, cs):
+            out.count("proto:unsafe")
+            continue
+        pending.append(("P:" + which, make_line("P", opts, es, cs), ("proto", E, C, which)))
+
+
+def stream_molrecs_raw(ctx: Ctx, out: Outcome, pending):
+    """RAW molecule records through compare_molrecs: the normalisation itself is part of the tie"""
+    import qcelemental as qcel
+
+    rng = ctx.rng
+    for _ in range(ctx.scale(700, 5000)):
+        s = rng.choice(MOLS)
+        rec = qcel.molparse.from_string(s)["qm"]
+        nat = len(rec["elem"])
+        atol, rtol = (None, None) if rng.random() < 0.4 else pick_tols(rng, True)
+        ea, er = eff_tols(dict(atol=atol, rtol=rtol))
+        cls = rng.choice(["same", "at", "ulp_below", "ulp_above", "far"])
+        bonds = []
+        if nat >= 2 and rng.random() < 0.75:
+            bonds = [(0, 1, 1.0)] + ([(rng.choice([0, 1]), 2, rng.choice([1.0, 2.0]))] if nat >= 3 and rng.random() < 0.7 else [])
+            rec["connectivity"] = list(bonds)
+        if rng.random() < 0.3:
+            rec["fragment_files"] = ["a.xyz", "dir/b c.xyz"][: rng.randint(0, 2)]
+        if rng.random() < 0.15:
+            rec["geom"] = [float(x) for x in rec["geom"]]  # a plain list where the other side may hold an ndarray
+        other = copy.deepcopy(rec)
+        site = rng.choice(["none", "geom", "version", "bond_swap", "bond_perm", "bond_types", "bond_order", "bond_extra", "bond_bad", "charge", "elem", "mass",
+                           "seps", "seps_float", "seps_none", "units", "prov_other", "prov_nover", "files", "key_drop", "geom_list"])
+        if site == "geom":
+            i = rng.randrange(3 * nat)
+            g = copy.deepcopy(other["geom"])
+            g[i] = float(perturb(rng, Fr(float(rec["geom"][i])), ea, er, cls))
+            other["geom"] = g
+        elif site == "geom_list":
+            other["geom"] = [float(x) for x in other["geom"]] if isinstance(other["geom"], np.ndarray) else np.array(other["geom"])
+        elif site == "version":
+            other["provenance"]["version"] = "0_0_0"
+        elif site == "prov_other":
+            other["provenance"]["creator"] = "someone"
+        elif site == "prov_nover":
+            tgt = rng.choice([rec, other])
+            tgt["provenance"].pop("version")
+        elif site == "bond_swap" and bonds:
+            other["connectivity"] = [(b, a, bo) if rng.random() < 0.7 else (a, b, bo) for a, b, bo in other["connectivity"]]
+        elif site == "bond_perm" and len(bonds) >= 2:
+            other["connectivity"] = list(reversed(other["connectivity"]))
+        elif site == "bond_types" and bonds:
+            other["connectivity"] = [(np.int64(a) if rng.random() < 0.5 else a, np.int64(b) if rng.random() < 0.5 else b, bo) for a, b, bo in other["connectivity"]]
+            if rng.random() < 0.5:
+                other["connectivity"] = [list(t) for t in other["connectivity"]]
+        elif site == "bond_order" and bonds:
+            a, b, bo = other["connectivity"][0]
+            other["connectivity"][0] = (a, b, float(perturb(rng, Fr(bo), ea, er, cls)))
+        elif site == "bond_extra" and nat >= 3:
+            other["connectivity"] = list(other.get("connectivity", [])) + [(2, 0, 1.0)]
+        elif site == "bond_bad" and bonds:
+            other["connectivity"] = rng.choice([[(0, 1)], [(0, 1, 1.0, 5)], None, [5]])
+        elif site == "charge":
+            other["molecular_charge"] = float(perturb(rng, Fr(float(rec["molecular_charge"])), ea, er, cls))
+        elif site == "elem":
+            other["elem"] = np.array(["Xe"] + list(other["elem"][1:]))
+        elif site == "mass":
+            other["mass"][0] = float(perturb(rng, Fr(float(rec["mass"][0])), ea, er, cls))
+        elif site == "seps" and len(rec["fragment_separators"]):
+            other["fragment_separators"] = rng.choice([[np.int64(x) for x in other["fragment_separators"]], np.array(other["fragment_separators"]), [float(x) for x in other["fragment_separators"]]])
+        elif site == "seps_float" and len(rec["fragment_separators"]):
+            other["fragment_separators"] = [float(x) + rng.choice([0.25, 0.75, -0.0]) for x in other["fragment_separators"]]
+            if rng.random() < 0.15:
+                other["fragment_separators"] = [float("nan")]
+        elif site == "seps_none":
+            rec["fragment_separators"] = [None] + list(rec["fragment_separators"])
+            other["fragment_separators"] = [None] + list(other["fragment_separators"]) if rng.random() < 0.7 else [0] + list(other["fragment_separators"])
+        elif site == "units":
+            other["units"] = "Bohr"
+        elif site == "files" and "fragment_files" in other:
+            other["fragment_files"] = [f + "x" for f in other["fragment_files"]] if rng.random() < 0.5 else np.array(other["fragment_files"]) if other["fragment_files"] else []
+        elif site == "key_drop":
+            other.pop(rng.choice(["fix_com", "elbl", "connectivity", "provenance"]), None)
+        if rng.random() < 0.5:
+            rec, other = other, rec
+        forgive = rng.choice([None, None, None, ["geom"], ["mass"], ["provenance"], ["connectivity"], ["connectivity.0"], ["units"], ["fragment_separators"]])
+        opts = dict(atol=atol, rtol=rtol, relative_geoms=rng.choice(["exact", "exact", "exact", "other"]), forgive=forgive)
+        try:
+            es, cs = to_spec(rec), to_spec(other)
+        except ValueError:
+            out.count("molrecs:skipped")
+            continue
+        try:
+            me, mc = massage_spec(es, True), massage_spec(cs, True)
+            if not rec_safe2(me, mc, ea, er) or not wide_modelled(me, mc):
+                out.count("molrecs:unsafe")
+                continue
+        except _NoDemand:
+            pass  # the normalisation raises / is outside the molrec shape: model tie only
+        pending.append(("Mraw:" + site, make_line("M", opts, es, cs), ("molrecs_raw", rec, other)))
+    # directed: the same bonds listed in another order (ties on the first atom included) must compare equal; a changed bond must not
+    for _ in range(ctx.scale(60, 400)):
+        nb = rng.randint(2, 4)
+        bonds = []
+        while len(bonds) < nb:
+            a, b = rng.sample(range(4), 2)
+            if (min(a, b), max(a, b)) not in [(min(x, y), max(x, y)) for x, y, _ in bonds]:
+                bonds.append((a, b, rng.choice([1.0, 1.5, 2.0])))
+        rec = {"elem": np.array(["C", "H", "H", "H"]), "connectivity": list(bonds), "units": "Bohr"}
+        perm = list(bonds)
+        rng.shuffle(perm)
+        perm = [(b, a, bo) if rng.random() < 0.5 else (a, b, bo) for a, b, bo in perm]
+        m = rng.choice(["perm", "perm", "perm", "order", "atom"])
+        if m == "order":
+            a, b, bo = perm[0]
+            perm[0] = (a, b, bo + 0.5)
+        elif m == "atom":
+            a, b, bo = perm[0]
+            perm[0] = (a, 4, bo)
+        other = dict(rec, connectivity=perm)
+        opts = dict(atol=None, rtol=None, relative_geoms="exact", forgive=None)
+        pending.append(("Mraw:bond_listing", make_line("M", opts, to_spec(rec), to_spec(other)), ("molrecs_raw", rec, other)))
+
+
+def known_predicate(finding, entry) -> bool:
+    """the one open finding (dotted-key path aliasing) matches only the narrowly classified class it names"""
+    case = finding.case if isinstance(finding.case, dict) else {}
+    if entry.get("kind") != NEW_TWEAK_KIND["dotted_alias"] or case.get("classified_by") != ["dotted_alias"]:
+        return False
+    _, _, e, c = parse_line(case.get("line", ""))
+
+    def dotted(t):
+        return (t[0] == "D" and any("." in k or dotted(v) for k, v in t[1])) or (t[0] == "L" and any(dotted(v) for v in t[1]))
+
+    return finding.observed == "T" and finding.expected == "F" and (dotted(e) or dotted(c))
+
+
 # ======================================================================================
 
 
@@ -1633,14 +2578,18 @@ def run(ctx: Ctx) -> Outcome:
     cases += list(gen_E(ctx, ctx.scale(8000, 40000)))
     cases += list(gen_R(ctx, ctx.scale(20000, 90000)))
     cases += list(gen_R_directed(ctx))
+    cases += list(gen_W_directed(ctx, ctx.scale(6000, 40000)))
+    cases += list(gen_W_keys(ctx, ctx.scale(4000, 25000)))
     cases = [(b, l, None) for b, l in cases]
     stream_models(ctx, out, cases)
     stream_molrecs(ctx, out, cases)
+    stream_proto(ctx, out, cases)
+    stream_molrecs_raw(ctx, out, cases)
     model = [None] * len(cases)
     if ctx.model_available:
         model = ctx.run_model(DRIVER, [l for _, l, _ in cases])
     for (block, line, via), ml in zip(cases, model):
-        check_line(ctx, out, block, line, ml, via=via, variant_rng=ctx.rng)
+        check_line(ctx, out, block.split(":")[0] if block.startswith("Mraw") else block, line, ml, via=via, variant_rng=ctx.rng)
     # how sharp was the edge testing?  count element pairs exactly at / one ulp around the bound
     out.exhaustive = False
     out.notes.append("all blocks sampled from VERIF_SEED; numeric cases kept only when float evaluation is exact or decided by a 2^-40 relative margin")
@@ -1657,6 +2606,20 @@ def replay(ctx: Ctx, case) -> Outcome:
         M = get_models()
         _, _, e, c = parse_line(line)
         via = ("model", M["Outer"](**build(e)), M["Outer"](**build(c)))
+    if isinstance(case, dict) and case.get("via") == "proto":
+        import qcelemental as qcel
+
+        _, _, e, c = parse_line(line)
+        try:
+            cls = getattr(qcel.models, case.get("cls", ""))
+            via = ("proto", construct_from_dict(cls, build(e)), construct_from_dict(cls, build(c)), case.get("cls"))
+            if enc(to_spec(via[1].dict())) != enc(e) or enc(to_spec(via[2].dict())) != enc(c):
+                via = None
+        except Exception:  # noqa
+            via = None  # falls back to compare_recursive on the two .dict() trees with the keyword defaults (the same call path)
+    if isinstance(case, dict) and case.get("via") == "molrecs_raw":
+        _, _, e, c = parse_line(line)
+        via = ("molrecs_raw", build(e), build(c))
     # a molrecs case replays through compare_recursive on the normalised dictionaries (same verdict path)
     check_line(ctx, out, "replay", line, ml, via=via, variant_rng=ctx.rng)
     return out
